@@ -1,13 +1,18 @@
 /-
-C08 — dropping any subset of droppable packets leaves the stream decodable.   STATUS: the mechanism
-that makes it hold is proved here for every state (after a droppable header on a chunk stream the next
-message there starts with a full, self-contained format-0 header, and a packet that is not droppable
-never depends on a droppable one); the end-to-end statement for every history and every subset (Thm B ∘
-Thm A with drops) is NOT yet a theorem and is covered by the correspondence run under drop masks, the
-round-trip oracle (!chunk.rt mask) and the reference decoder oracle (!chunk.ref mask), with ALL masks
-enumerated for the small-scope histories.
+C08 — dropping any subset of droppable packets leaves the stream decodable.   STATUS: proved.
+
+`C08_drop_any_subset` (Thm B ∘ Thm A with drops): for EVERY accepted history and EVERY subset of the
+packets returned marked droppable, the remaining packets, in order, are (a) read by the specification
+reader as exactly the messages of the remaining packets — original type, stream id, timestamp,
+payload — and (b) decoded by the deserializer model into exactly those messages with no error,
+however the bytes are split across calls.  Non-droppable packets are never removed by `keepSel`
+(`C08_keeps_non_droppable`).  Hypothesis as for C07 (hand-made type-1 payloads, reading 11).
+The mechanism (full header after a droppable one, flag recorded per chunk stream) is proved
+separately for every state.
 -/
-import Rml.Lemmas.Ser
+import Rml.Lemmas.SerHist
+import Rml.Props.C06
+
 namespace Rml.C08
 open Rml Rml.Bytes Rml.Chunk Rml.Ser
 
@@ -77,5 +82,54 @@ theorem C08_announcement_not_droppable (s s' : State) (n ts : Nat) (p : Packet)
       rw [hser] at h
       simp only [Outcome.ok.injEq, Prod.mk.injEq] at h
       rw [← h.2]; exact serialize_drop _ _ _ _ _ _ hser
+
+open Rml.SerHist in
+/-- **C08.**  Any subset of the droppable packets may be omitted. -/
+theorem C08_drop_any_subset (ops : List C19.SerOp) (hwf : HistWF {} ops) (mask : List Bool) :
+    Spec.Chunk.decodeSeq (wire (keepSel mask (trace {} ops))) = some (msgs (keepSel mask (trace {} ops))) ∧
+    (Des.feed {} (wire (keepSel mask (trace {} ops)))).msgs = msgs (keepSel mask (trace {} ops)) ∧
+    (Des.feed {} (wire (keepSel mask (trace {} ops)))).err = none := by
+  have h := SerSpec.reads_decodeSeq (hist_reads ops {} {} mask SR_init hwf)
+  obtain ⟨h1, h2, _⟩ := C06.C06_decodes_legal _ _ h
+  exact ⟨h, h1, h2⟩
+
+open Rml.SerHist in
+/-- … under every fragmentation of the remaining bytes -/
+theorem C08_drop_any_subset_any_fragmentation (ops : List C19.SerOp) (hwf : HistWF {} ops) (mask : List Bool)
+    (c1 : Bytes) (r1 : List Bytes) (hcut : (c1 :: r1).flatten = wire (keepSel mask (trace {} ops))) :
+    (C15.feedAll {} (c1 :: r1)).msgs = msgs (keepSel mask (trace {} ops)) ∧
+    (C15.feedAll {} (c1 :: r1)).err = none := by
+  have h := SerSpec.reads_decodeSeq (hist_reads ops {} {} mask SR_init hwf)
+  rw [← hcut] at h
+  exact C06.C06_decodes_legal_any_fragmentation c1 r1 _ h
+
+open Rml.SerHist in
+/-- packets not marked droppable are never omitted -/
+theorem C08_keeps_non_droppable (xs : List (Packet × Msg)) : ∀ (mask : List Bool) (x : Packet × Msg),
+    x ∈ xs → x.1.drop = false → x ∈ keepSel mask xs := by
+  induction xs with
+  | nil => intro _ _ h; cases h
+  | cons y ys ih =>
+    intro mask x hx hd
+    obtain ⟨p, m⟩ := y
+    unfold keepSel
+    rcases List.mem_cons.mp hx with rfl | hx'
+    · have hd' : p.drop = false := hd
+      simp [hd']
+    · by_cases hc : (p.drop && !(mask.headD true)) = true
+      · simp only [hc, if_true]; exact ih _ x hx' hd
+      · simp only [hc, if_false]; exact List.mem_cons_of_mem _ (ih _ x hx' hd)
+
+-- non-vacuity: a history with two droppable packets of which the first is omitted, checked in the kernel
+open Rml.SerHist in
+example :
+    let ops : List C19.SerOp :=
+      [.msg { ts := 5, typ := 9, msid := 1, data := [1, 2, 3] } false false,
+       .msg { ts := 45, typ := 9, msid := 1, data := [4, 5, 6] } false true,
+       .msg { ts := 85, typ := 9, msid := 1, data := [7, 8, 9] } false true,
+       .msg { ts := 125, typ := 9, msid := 1, data := [1, 1, 1] } false false]
+    (msgs (keepSel [true, false, true, true] (trace {} ops))).map (·.ts) = [5, 85, 125] ∧
+    (Spec.Chunk.decodeSeq (wire (keepSel [true, false, true, true] (trace {} ops)))).map (·.map (·.ts)) = some [5, 85, 125] := by
+  decide +kernel
 
 end Rml.C08
